@@ -22,7 +22,7 @@ EXHAUSTIVE = {"quick": ["every count vector with N=2..12, K<=4 (zeros allowed)",
               "thorough": ["every count vector with N=2..22, K<=5", "two-sample: every pair K<=3, N1,N2<=6"]}
 REQUIRE = {"vectors_checked": 1190, "varpc_exact_identities": 1000, "pc_exact_identities": 1190, "stdpc_n_checked": 300,
            "stdpc_sample_checked": 100, "expectation_identities_pc": 12, "expectation_identities_var": 8,
-           "expectation_identities_two_sample": 4, "two_sample_vectors": 200, "two_sample_tables": 50, "stdpc_joint_checked": 6, "large_vectors": 7, "big_samples": 2, "pc_n_narrow_dtype_checked": 100}
+           "expectation_identities_two_sample": 4, "two_sample_vectors": 200, "two_sample_tables": 50, "stdpc_joint_checked": 6, "large_vectors": 7, "big_samples": 2, "pc_n_narrow_dtype_checked": 100, "count_array_reused": 100}
 SHARDS = {"quick": 6, "thorough": 16}
 
 
@@ -88,7 +88,16 @@ def _check_vector(ctx, n, stats, realise=True):
         if ex != want_pc:
             ctx.violation("pc_n:not-the-U-statistic", "pc_n(n) != sum n_i(n_i-1) / (N(N-1)): the estimator is biased for some p",
                           str(ex), str(want_pc), {"n": list(n)})
-    fl = ctx.call(prs.pc_n, np.array(n))
+    arr = np.array(n)
+    fl = ctx.call(prs.pc_n, arr)
+    if N % 3 == 0:
+        # the caller's count array is reused: second call and a later varpc_n must see the same counts
+        again = ctx.call(prs.pc_n, arr)
+        ctx.count("count_array_reused")
+        if arr.tolist() != list(n):
+            ctx.violation("pc_n:argument-modified", "pc_n modified the caller's count array", arr.tolist(), list(n))
+        elif not again.ok or not _close(again.value, want_pc):
+            ctx.violation("pc_n:second-call-differs", "a second pc_n call on the same array gives another value", again.describe(), str(want_pc), {"n": list(n)})
     if not fl.ok or not _close(fl.value, want_pc):
         ctx.violation("pc_n:float:wrong", "pc_n on an integer array differs from the exact U-statistic", fl.describe(), str(want_pc), {"n": list(n)})
     # narrow integer dtypes, only where every single term n_i(n_i-1) and N(N-1) still fits the dtype
